@@ -29,6 +29,7 @@ import (
 	"encoding/json"
 	"fmt"
 	"net"
+	"os"
 	"sort"
 	"strconv"
 	"strings"
@@ -60,14 +61,32 @@ func (sc slowScen) line() string {
 }
 
 func (sc slowScen) cfg() childCfg {
-	return childCfg{Handlers: sc.Handlers, TLS: sc.TLS, IdleMs: 6000, ReadMs: sc.ReadMs, WriteMs: sc.WriteMs, CheckMs: 200}
+	return childCfg{Handlers: sc.Handlers, TLS: sc.TLS, IdleMs: slowIdleMs, ReadMs: sc.ReadMs, WriteMs: sc.WriteMs, CheckMs: 200}
 }
 
-// slack added to every bound of this stage (the machine may be heavily loaded)
-const slowSlack = 6 * time.Second
+var slowDebug = os.Getenv("VERIF_C11_SLOWDEBUG") != ""
 
-func (sc slowScen) bound() time.Duration {
+// slack added to every bound of this stage (the machine may be heavily loaded)
+const slowSlack = 5 * time.Second
+
+// IdleTimeout of the children of this stage. A connection that plays over TCP and sends nothing is
+// closed after IdleTimeout (readFuncTCP), so it must exceed the time a scenario needs to reach the
+// peer's action; on the other hand a PAUSE / TEARDOWN whose response cannot be written keeps the
+// connection until IdleTimeout (see closeBound), so it decides how long those scenarios last.
+const slowIdleMs = 4000
+
+// releaseBound: after the peer's socket is closed, a blocked write ends at once (or at WriteTimeout at
+// the latest) and the reader sees EOF.
+func (sc slowScen) releaseBound() time.Duration {
 	return time.Duration(2*sc.WriteMs+sc.ReadMs)*time.Millisecond + slowSlack
+}
+
+// closeBound: the blocked write and the write of the response each end after WriteTimeout at the
+// latest; a failed write of the response to PLAY / PAUSE / TEARDOWN over TCP does NOT close the
+// connection (handleRequestOuter keeps the read-function switch and drops the write error), the
+// connection is then closed by the read deadline, IdleTimeout later.
+func (sc slowScen) closeBound() time.Duration {
+	return time.Duration(2*sc.WriteMs+sc.ReadMs+slowIdleMs)*time.Millisecond + slowSlack
 }
 
 var slowActions = []string{
@@ -115,6 +134,9 @@ func dialSlow(port int, useTLS bool, rcvbuf int) (net.Conn, *net.TCPConn, error)
 // continuously, counts the frames and forwards the responses.
 type goodReader struct {
 	nc      net.Conn
+	wmu     sync.Mutex // serialises writes (checks and keep-alives)
+	stopKA  chan struct{}
+	stopped bool
 	frames  atomic.Int64
 	resp    chan int
 	dead    atomic.Bool
@@ -128,7 +150,7 @@ func startGoodReader(port int, useTLS bool) (*goodReader, error) {
 	if err != nil {
 		return nil, err
 	}
-	g := &goodReader{nc: nc, resp: make(chan int, 16), scheme: "rtsp"}
+	g := &goodReader{nc: nc, resp: make(chan int, 16), scheme: "rtsp", stopKA: make(chan struct{})}
 	if useTLS {
 		g.scheme = "rtsps"
 	}
@@ -162,7 +184,29 @@ func startGoodReader(port int, useTLS bool) (*goodReader, error) {
 			}
 		}
 	}()
+	// keep-alives: a connection that plays over TCP and sends nothing is closed after IdleTimeout
+	go func() {
+		t := time.NewTicker(500 * time.Millisecond)
+		defer t.Stop()
+		for {
+			select {
+			case <-g.stopKA:
+				return
+			case <-t.C:
+				g.options() //nolint:errcheck
+			}
+		}
+	}()
 	return g, nil
+}
+
+func (g *goodReader) options() error {
+	g.wmu.Lock()
+	defer g.wmu.Unlock()
+	g.cseq++
+	g.nc.SetWriteDeadline(time.Now().Add(10 * time.Second))
+	_, err := g.nc.Write(rq("OPTIONS", g.scheme+"://127.0.0.1/s", "CSeq: "+strconv.Itoa(g.cseq), "Session: "+g.session))
+	return err
 }
 
 // served: the reader still receives packets (at least one new frame within 3 s) and an OPTIONS inside
@@ -185,9 +229,7 @@ func (g *goodReader) served() string {
 	for len(g.resp) > 0 {
 		<-g.resp
 	}
-	g.cseq++
-	g.nc.SetWriteDeadline(time.Now().Add(10 * time.Second))
-	if _, err := g.nc.Write(rq("OPTIONS", g.scheme+"://127.0.0.1/s", "CSeq: "+strconv.Itoa(g.cseq), "Session: "+g.session)); err != nil {
+	if err := g.options(); err != nil {
 		return "OPTIONS could not be written: " + err.Error()
 	}
 	select {
@@ -202,7 +244,17 @@ func (g *goodReader) served() string {
 }
 
 func (g *goodReader) stop() {
+	g.wmu.Lock()
+	defer g.wmu.Unlock()
+	if g.stopped {
+		return
+	}
+	g.stopped = true
+	close(g.stopKA)
 	if !g.dead.Load() {
+		for len(g.resp) > 0 {
+			<-g.resp
+		}
 		g.cseq++
 		g.nc.SetWriteDeadline(time.Now().Add(2 * time.Second))
 		g.nc.Write(rq("TEARDOWN", g.scheme+"://127.0.0.1/s", "CSeq: "+strconv.Itoa(g.cseq), "Session: "+g.session)) //nolint:errcheck
@@ -328,15 +380,16 @@ func runSlow(sc slowScen, out *workerOut, mu *sync.Mutex) {
 			}
 			return
 		}
-		defer good.nc.Close()
+		defer good.stop()
 	}
+	goodFailed := false
 	goodCheck := func(phase string) {
-		if good == nil {
+		if good == nil || goodFailed {
 			return
 		}
 		if why := good.served(); why != "" {
 			add("slow-reader-other-connection-not-served", "%s: the well-behaved reader on another connection was not served: %s", phase, why)
-			good = nil // reported once
+			goodFailed = true // reported once
 		}
 	}
 
@@ -460,9 +513,14 @@ func runSlow(sc slowScen, out *workerOut, mu *sync.Mutex) {
 		go func() {
 			buf := make([]byte, 1<<16)
 			var tail []byte
+			total := 0
 			for {
-				nc.SetReadDeadline(time.Now().Add(sc.bound() + 5*time.Second))
+				nc.SetReadDeadline(time.Now().Add(sc.closeBound() + 5*time.Second))
 				n, err := hc.rr.br.Read(buf)
+				if slowDebug {
+					total += n
+					fmt.Fprintf(os.Stderr, "slow-debug: read %d (total %d) err=%v tail=%q\n", n, total, err, buf[max(0, n-60):n])
+				}
 				if n > 0 {
 					w := append(tail, buf[:n]...)
 					for {
@@ -503,7 +561,7 @@ func runSlow(sc slowScen, out *workerOut, mu *sync.Mutex) {
 		expectOpen = 1
 	}
 	if !selfClosed {
-		deadline := tReq.Add(sc.bound())
+		deadline := tReq.Add(sc.closeBound())
 		lateRead := tReq.Add(time.Duration(2*sc.WriteMs+100) * time.Millisecond)
 		nothingToWaitFor := sc.Resume && !answerable && sc.Action != "garbage"
 		if nothingToWaitFor {
@@ -546,8 +604,8 @@ func runSlow(sc slowScen, out *workerOut, mu *sync.Mutex) {
 					what = "stayed silent"
 				}
 				add("slow-reader-connection-neither-answered-nor-closed",
-					"the peer stopped reading after PLAY, the session's writer was blocked (%v), the peer %s %d ms after the blockage (WriteTimeout %d ms, ReadTimeout %d ms): %v later the server still lists the connection (conns %d, OnConnClose %d, sessions %d) and the peer, reading again since %d ms after its request, found no response",
-					blocked, what, tReq.Sub(t0).Milliseconds(), sc.WriteMs, sc.ReadMs, time.Since(tReq).Round(time.Millisecond), st.Conns, st.ConnClose-base.ConnClose, st.Sessions, 2*sc.WriteMs+100)
+					"the peer stopped reading after PLAY, the session's writer was blocked (%v), the peer %s %d ms after the blockage (WriteTimeout %d ms, ReadTimeout %d ms, IdleTimeout %d ms): %v later the server still lists the connection (conns %d, OnConnClose %d, sessions %d) and the peer, reading again since %d ms after its request, found no response",
+					blocked, what, tReq.Sub(t0).Milliseconds(), sc.WriteMs, sc.ReadMs, slowIdleMs, time.Since(tReq).Round(time.Millisecond), st.Conns, st.ConnClose-base.ConnClose, st.Sessions, 2*sc.WriteMs+100)
 				break
 			}
 			time.Sleep(sleep)
@@ -570,11 +628,9 @@ func runSlow(sc slowScen, out *workerOut, mu *sync.Mutex) {
 		// the good reader must outlive the hostile connection
 		time.Sleep(30 * time.Millisecond)
 		goodCheck("after the hostile connection was closed")
-	}
-	if good != nil {
 		good.stop()
 	}
-	d, err := waitBaseline(ch, base, sc.bound())
+	d, err := waitBaseline(ch, base, sc.releaseBound())
 	if err != nil || !ch.alive() {
 		if !died("after the hostile connection ended") {
 			add("child-control-failed", "%v", err)
@@ -584,7 +640,7 @@ func runSlow(sc slowScen, out *workerOut, mu *sync.Mutex) {
 	mark("baseline")
 	if d != "" {
 		ledger, missing, dup := splitDiff(d)
-		pre := fmt.Sprintf("the peer stopped reading after PLAY (writer blocked: %v), action %s %d ms after the blockage (WriteTimeout %d ms), then closed its socket; %v later", blocked, sc.Action, tReq.Sub(t0).Milliseconds(), sc.WriteMs, sc.bound())
+		pre := fmt.Sprintf("the peer stopped reading after PLAY (writer blocked: %v), action %s %d ms after the blockage (WriteTimeout %d ms), then closed its socket; %v later", blocked, sc.Action, tReq.Sub(t0).Milliseconds(), sc.WriteMs, sc.releaseBound())
 		if len(ledger) > 0 {
 			add("slow-reader-resources-not-released", "%s the server is not back at its baseline: %s", pre, strings.Join(ledger, "; "))
 		}
@@ -704,6 +760,12 @@ func slowStage(scens []slowScen, par int) *workerOut {
 	var wg sync.WaitGroup
 	sem := make(chan struct{}, par)
 	t0 := time.Now()
+	// the scenarios that may last until IdleTimeout first
+	long := func(sc slowScen) bool {
+		return !sc.Resume && sc.DelayPct < 120 && (strings.HasPrefix(sc.Action, "pause") || sc.Action == "teardown")
+	}
+	scens = append([]slowScen(nil), scens...)
+	sort.SliceStable(scens, func(i, j int) bool { return long(scens[i]) && !long(scens[j]) })
 	for _, sc := range scens {
 		wg.Add(1)
 		sem <- struct{}{}
@@ -714,6 +776,15 @@ func slowStage(scens []slowScen, par int) *workerOut {
 		}(sc)
 	}
 	wg.Wait()
+	// keep the timelines of the five slowest scenarios only (all of them with VERIF_C11_SLOWDEBUG)
+	if tl, _ := out.extras["timeline"].([]string); len(tl) > 5 && !slowDebug {
+		endOf := func(l string) int {
+			n, _ := strconv.Atoi(l[strings.LastIndex(l, "end@")+4:])
+			return n
+		}
+		sort.Slice(tl, func(i, j int) bool { return endOf(tl[i]) > endOf(tl[j]) })
+		out.extras["timeline"] = tl[:5]
+	}
 	out.extras["wall_s"] = time.Since(t0).Seconds()
 	out.extras["scenarios"] = len(scens)
 	out.extras["writer_blocked"] = out.kinds["slow:writer-blocked"]
